@@ -9,6 +9,7 @@ import FP.Proofs.Width
 import FP.Proofs.PathCoreExample
 import FP.Proofs.C09WalkCover
 import FP.Proofs.CondWalkCoverNeeds
+import FP.Proofs.C09WalkComplete
 /-!
 # C09 — minimum path/walk covers cover everything with fewest routes; the width equals it
 
@@ -29,7 +30,11 @@ DAG part (`kPathCover`, `MinPathCover`, `stDAG.get_width`): proven.
 Cyclic part (`kPathCoverCycles`, `MinPathCoverCycles`, `stDiGraph.get_width`): LP soundness
 (`walkcover_sound`, `walkcover_hascover`: every solution of the `kPathCoverCycles` LP decodes to `k`
 source-to-sink walks covering every edge that is not ignored, and containing the subset constraints at
-coverage fraction 1) and the lower-bound side (T5, `antichain_of_unreachable`) are proven for arbitrary
+coverage fraction 1), LP completeness (`walkcover_complete`: every family of `k ≥ 1` covering walks within the
+repetition caps extends to a solution whose edge variables are the traversal counts;
+`walkcover_caps_suffice`: the caps `|E|·|V|` inside SCCs / `1` outside cut off no cover), hence
+`walkcover_feasible_iff` and the minimum search `walkcover_search_minimal` /
+`walkcover_search_finds_minimum`, and the lower-bound side (T5, `antichain_of_unreachable`) are proven for arbitrary
 digraphs; the flow-to-walks direction on the condensation (`condensation_flow_to_walkcover`) and its corollary
 `digraph_width_is_min_walk_cover` are proven under three extra hypotheses that are each shown necessary (`cwc_needs_*`).
 -/
@@ -188,6 +193,130 @@ theorem walkcover_optimal_has_cover (inp : WalkInput) (h : BaseWF inp.base)
     (hfeas : ∃ a, Sat a (kcovercLP inp)) :
     HasCover inp.st (inp.activeEdges false) inp.cfg.constraints inp.k :=
   hfeas.elim fun a hsat => walkcover_hascover inp a h hae hsat hcov hce
+
+/-! #### completeness of the `kPathCoverCycles` LP -/
+
+/-- **cyclic counterpart of T2.** `k ≥ 1` source-to-sink walks of the augmented graph (`walk i` is the inner
+vertex sequence of the `i`-th one) such that (`WalkCoverWithin`)
+
+* every edge that is not ignored lies on one of them,
+* no walk runs through an edge more often than the model's cap for it (`kcovercCap`: `|E|·|V|` of the augmented
+  graph — the `max_edge_repetition` the class passes — on the edges inside a strongly connected component, `1` on
+  every other edge),
+* every subset constraint is covered by one of them, to the coverage fraction of the model (`coversB`: the number
+  of distinct constraint edges the walk uses is at least `|set(constraint)| · coverage`),
+
+extend to a satisfying assignment of `kcovercLP` whose edge variables are the traversal counts (`selected_edge` =
+first-entry edges, `distance` = first-visit ranks, `used_edge` = indicator of a positive count, `r(i, j)` = "walk
+`i` covers constraint `j`"). No hypothesis on `allow_empty_walks`, the coverage fraction or the constraints. -/
+theorem walkcover_complete (inp : WalkInput) (walk : Nat → List Node) (h : BaseWF inp.base)
+    (hk : 0 < inp.k) (hw : WalkCoverWithin inp walk) :
+    Sat (kcovercWalkAsg inp walk) (kcovercLP inp) ∧
+      (∀ i e, kcovercWalkAsg inp walk (edgeVar e i)
+        = (traversals (inp.st.source :: walk i ++ [inp.st.sink]) e : Rat)) ∧
+      (∀ i e, multOf (kcovercWalkAsg inp walk) i e
+        = traversals (inp.st.source :: walk i ++ [inp.st.sink]) e) :=
+  FP.c09k_complete_proof inp walk h hk hw
+
+/-- **"within the caps" is no restriction (1): one walk.** Every source-to-sink walk `r` of the augmented graph
+has a companion `source :: p ++ [sink]` that runs through every edge of `r` and respects every cap: it uses no
+edge more than `2|E| + 1 ≤ |E|·|V|` times (`FP.c09c_compress`: simple path to the first edge still to be visited,
+the edge, and so on; a graph with a source-to-sink walk has `|V| ≥ 3`, `|E| ≥ 1`) and an edge outside the SCCs
+at most once (as every walk does). With a smaller `max_edge_repetition` this fails: with `|V|` (seeded change
+C09-2) the graphs `D(p, q)` with `p·q > |V|` have a one-walk cover, none within the caps, and
+`MinPathCoverCycles` answers 2. -/
+theorem walk_within_caps (inp : WalkInput) (h : BaseWF inp.base) (r : List Node) (hr : IsSTWalk inp.st r) :
+    ∃ p, IsWalkIn inp.st.g (inp.st.source :: p ++ [inp.st.sink]) ∧
+      (∀ e ∈ walkEdges r, e ∈ walkEdges (inp.st.source :: p ++ [inp.st.sink])) ∧
+      ∀ e ∈ inp.st.g.edges,
+        (traversals (inp.st.source :: p ++ [inp.st.sink]) e : Rat) ≤ kcovercCap inp e :=
+  FP.c09k_route_within inp h r hr
+
+/-- **"within the caps" is no restriction (2): covers.** Whatever `k` source-to-sink walks cover (every edge that
+is not ignored; every subset constraint completely), `k` walks within the caps cover as well — for every `k`, in
+particular for the minimum (coverage fraction at most 1, which the class enforces) … -/
+theorem walkcover_caps_suffice (inp : WalkInput) (h : BaseWF inp.base) (hcov : inp.cfg.coverage ≤ 1)
+    (hc : HasCover inp.st (inp.activeEdges false) inp.cfg.constraints inp.k) :
+    ∃ walk, WalkCoverWithin inp walk :=
+  FP.c09k_within_of_cover inp h hcov hc
+
+/-- … and conversely a family within the caps is a cover in the sense of `HasCover` when the coverage fraction is
+(at least) 1. At coverage fraction 1 the two notions coincide. -/
+theorem walkcover_within_is_cover (inp : WalkInput) (walk : Nat → List Node) (hcov : 1 ≤ inp.cfg.coverage)
+    (hw : WalkCoverWithin inp walk) :
+    HasCover inp.st (inp.activeEdges false) inp.cfg.constraints inp.k :=
+  FP.c09k_cover_of_within inp walk hcov hw
+
+/-- **feasible ⇔ a walk cover with `k` walks exists** (cyclic counterpart of `kcover_feasible_iff`): empty walks
+not allowed (the default; needed for ⇒), coverage fraction 1 (⇒ needs `≥ 1`, ⇐ needs `≤ 1`), constraints made of
+edges of the augmented graph (needed for ⇒; anything else is rejected by the class). Any `k`, `k = 0` included
+(then both sides say: nothing to cover). -/
+theorem walkcover_feasible_iff (inp : WalkInput) (h : BaseWF inp.base) (hae : inp.cfg.allowEmpty = false)
+    (hcov : inp.cfg.coverage = 1)
+    (hce : ∀ c ∈ inp.cfg.constraints, ∀ e ∈ c, e ∈ inp.st.g.edges) :
+    (∃ a, Sat a (kcovercLP inp)) ↔
+      HasCover inp.st (inp.activeEdges false) inp.cfg.constraints inp.k :=
+  FP.c09k_feasible_iff inp h hae hcov hce
+
+/-- **feasible ⇔ a family within the caps exists** (`k ≥ 1`): the same in the vocabulary of `walkcover_complete` -/
+theorem walkcover_feasible_iff_within (inp : WalkInput) (h : BaseWF inp.base) (hae : inp.cfg.allowEmpty = false)
+    (hcov : inp.cfg.coverage = 1)
+    (hce : ∀ c ∈ inp.cfg.constraints, ∀ e ∈ c, e ∈ inp.st.g.edges) (hk : 0 < inp.k) :
+    (∃ a, Sat a (kcovercLP inp)) ↔ ∃ walk, WalkCoverWithin inp walk :=
+  ⟨fun hf => walkcover_caps_suffice inp h (by rw [hcov]; exact Rat.le_refl)
+      ((walkcover_feasible_iff inp h hae hcov hce).1 hf),
+   fun ⟨walk, hw⟩ => ⟨_, (walkcover_complete inp walk h hk hw).1⟩⟩
+
+/-- **`MinPathCoverCycles.solve`, end to end** (cyclic counterpart of `mincover_search`). The solver is faithful
+(`optimal` only for feasible and `infeasible` only for infeasible `k`-models; nothing is assumed about other
+statuses), the loop `for k in range(lowerbound, …)` starts at the size of an antichain of edges that are not
+ignored (what `stDiGraph.get_width` certifies; `antichain_of_unreachable` turns pairwise unreachable edges into
+one): an answer `m` is the minimum number of source-to-sink walks covering every edge that is not ignored and
+containing every subset constraint — among *all* walk covers, not only those within the caps
+(`walkcover_caps_suffice`). -/
+theorem walkcover_search_minimal (inp : WalkInput) (h : BaseWF inp.base)
+    (hae : inp.cfg.allowEmpty = false) (hcov : inp.cfg.coverage = 1)
+    (hce : ∀ c ∈ inp.cfg.constraints, ∀ e ∈ c, e ∈ inp.st.g.edges)
+    (σ : Nat → Status)
+    (hopt : ∀ k, σ k = .optimal → ∃ a, Sat a (kcovercLP (inp.withK k)))
+    (hinf : ∀ k, σ k = .infeasible → ¬ ∃ a, Sat a (kcovercLP (inp.withK k)))
+    (A : List Edge) (hA : Antichain inp.st A) (hAact : ∀ e ∈ A, e ∈ inp.activeEdges false)
+    (hi m : Nat) (hs : (stopSearch σ A.length hi).solved = some m) :
+    IsMinCover inp.st (inp.activeEdges false) inp.cfg.constraints m :=
+  FP.c09k_search_minimal inp h hae hcov hce σ hopt hinf A hA hAact hi m hs
+
+/-- **… the least `k` for which a cover within the caps exists.** The answer `m` of the loop comes with `m` walks
+within the caps of the `m`-model, and for no `j < m` is there a family of `j` walks within the caps of the
+`j`-model (the caps do not depend on `k`). By `walkcover_caps_suffice` / `walkcover_within_is_cover` this is the
+same statement as `walkcover_search_minimal`. -/
+theorem walkcover_search_minimal_within (inp : WalkInput) (h : BaseWF inp.base)
+    (hae : inp.cfg.allowEmpty = false) (hcov : inp.cfg.coverage = 1)
+    (hce : ∀ c ∈ inp.cfg.constraints, ∀ e ∈ c, e ∈ inp.st.g.edges)
+    (σ : Nat → Status)
+    (hopt : ∀ k, σ k = .optimal → ∃ a, Sat a (kcovercLP (inp.withK k)))
+    (hinf : ∀ k, σ k = .infeasible → ¬ ∃ a, Sat a (kcovercLP (inp.withK k)))
+    (A : List Edge) (hA : Antichain inp.st A) (hAact : ∀ e ∈ A, e ∈ inp.activeEdges false)
+    (hi m : Nat) (hs : (stopSearch σ A.length hi).solved = some m) :
+    (∃ walk, WalkCoverWithin (inp.withK m) walk) ∧
+      ∀ j, j < m → ¬ ∃ walk, WalkCoverWithin (inp.withK j) walk := by
+  obtain ⟨hm, hmin⟩ := walkcover_search_minimal inp h hae hcov hce σ hopt hinf A hA hAact hi m hs
+  refine ⟨walkcover_caps_suffice (inp.withK m) h (by show inp.cfg.coverage ≤ 1; rw [hcov]; exact Rat.le_refl) hm, ?_⟩
+  rintro j hj ⟨walk, hw⟩
+  exact hmin j hj (walkcover_within_is_cover (inp.withK j) walk
+    (by show 1 ≤ inp.cfg.coverage; rw [hcov]; exact Rat.le_refl) hw)
+
+/-- … and with a solver that decides every `k`-model the loop does return the minimum whenever it lies inside
+the searched range (`hi = |E| + 1` in `MinPathCoverCycles.solve`) -/
+theorem walkcover_search_finds_minimum (inp : WalkInput) (h : BaseWF inp.base)
+    (hae : inp.cfg.allowEmpty = false) (hcov : inp.cfg.coverage = 1)
+    (hce : ∀ c ∈ inp.cfg.constraints, ∀ e ∈ c, e ∈ inp.st.g.edges)
+    (σ : Nat → Status)
+    (hopt : ∀ k, (∃ a, Sat a (kcovercLP (inp.withK k))) → σ k = .optimal)
+    (hinf : ∀ k, (¬ ∃ a, Sat a (kcovercLP (inp.withK k))) → σ k = .infeasible)
+    (A : List Edge) (hA : Antichain inp.st A) (hAact : ∀ e ∈ A, e ∈ inp.activeEdges false)
+    (hi m : Nat) (hm : IsMinCover inp.st (inp.activeEdges false) inp.cfg.constraints m) (hhi : m < hi) :
+    (stopSearch σ A.length hi).solved = some m :=
+  FP.c09k_search_finds inp h hae hcov hce σ hopt hinf A hA hAact hi m hm hhi
 
 /-! note: `walkcover_sound` replaces the former `def walkcover_sound_Statement`, whose first clause read
 `IsSTWalk inp.st r` for the decoded walk `r` itself; `get_solution_walks` strips the synthetic endpoints, so
@@ -423,6 +552,65 @@ example : decodeWalks inpC.st asgC inpC.k = [["s", "a", "a", "a", "t"]] := decod
 
 example : HasCover inpC.st [("s", "a"), ("a", "a"), ("a", "t")] [[("a", "a")]] 1 :=
   inpC_active ▸ walkcover_hascover inpC asgC WalkCoreExample.base_wf rfl satC (by decide) (by decide)
+
+/-- **non-vacuity of `walkcover_complete`**: the family `[source, s, a, a, a, t, sink]` is within the caps (the
+loop is used twice, its cap is 25), the assignment built from it satisfies the LP and has `edge((a,a),0) = 2` -/
+example : Sat (kcovercWalkAsg inpC walkC) (kcovercLP inpC) ∧ kcovercWalkAsg inpC walkC (edgeVar ("a", "a") 0) = 2 :=
+  ⟨(walkcover_complete inpC walkC WalkCoreExample.base_wf (by decide) withinC).1, walkAsgC_loop⟩
+
+/-- one walk covers `s → a`, the loop and `a → t` and contains the constraint … -/
+theorem coverC : HasCover inpC.st (inpC.activeEdges false) inpC.cfg.constraints inpC.k :=
+  walkcover_within_is_cover inpC walkC (by decide) withinC
+
+example : ∃ walk, WalkCoverWithin inpC walk :=
+  walkcover_caps_suffice inpC WalkCoreExample.base_wf (by decide) coverC
+
+/-- … so the `k = 1` model is feasible (`walkcover_feasible_iff`, ⇐), the `k = 0` model is not (⇒) -/
+example : ∃ a, Sat a (kcovercLP inpC) :=
+  (walkcover_feasible_iff inpC WalkCoreExample.base_wf rfl rfl (by decide)).2 coverC
+
+theorem noCover0 : ¬ HasCover inpC.st (inpC.activeEdges false) inpC.cfg.constraints 0 := by
+  rintro ⟨routes, hlen, _, hc, _⟩
+  have hr : routes = [] := List.eq_nil_of_length_eq_zero hlen
+  subst hr
+  obtain ⟨r, hr, _⟩ := hc ("s", "a") (by rw [inpC_active]; decide)
+  simp at hr
+
+example : ¬ ∃ a, Sat a (kcovercLP (inpC.withK 0)) := fun h =>
+  noCover0 ((walkcover_feasible_iff (inpC.withK 0) WalkCoreExample.base_wf rfl rfl (by decide)).1 h)
+
+theorem hceC : ∀ c ∈ inpC.cfg.constraints, ∀ e ∈ c, e ∈ inpC.st.g.edges := by decide
+
+theorem coverC_ge (k : Nat) (hk : 1 ≤ k) :
+    HasCover inpC.st (inpC.activeEdges false) inpC.cfg.constraints k := by
+  induction k with
+  | zero => omega
+  | succ n ih =>
+    by_cases hn : n = 0
+    · subst hn; exact coverC
+    · exact cover_monotone _ _ _ n (by omega) (ih (by omega))
+
+/-- the search with a faithful solver, started at the antichain `[(s, a)]`, answers 1, the minimum -/
+example : IsMinCover inpC.st (inpC.activeEdges false) inpC.cfg.constraints 1 :=
+  walkcover_search_minimal inpC WalkCoreExample.base_wf rfl rfl (by decide)
+    (fun k => if k < 1 then .infeasible else .optimal)
+    (fun k hk => by
+      have hk1 : 1 ≤ k := by
+        apply Classical.byContradiction; intro hlt
+        have : k < 1 := by omega
+        simp [this] at hk
+      exact (walkcover_feasible_iff (inpC.withK k) WalkCoreExample.base_wf rfl rfl hceC).2 (coverC_ge k hk1))
+    (fun k hk hfeas => by
+      have hk0 : k = 0 := by
+        apply Classical.byContradiction; intro hne
+        have : ¬ k < 1 := by omega
+        simp [this] at hk
+      subst hk0
+      exact noCover0 ((walkcover_feasible_iff (inpC.withK 0) WalkCoreExample.base_wf rfl rfl (by decide)).1 hfeas))
+    [("s", "a")] ⟨by decide, fun r _ e1 he1 e2 he2 _ _ => by
+      simp only [List.mem_cons, List.not_mem_nil, or_false] at he1 he2
+      rw [he1, he2]⟩
+    (by rw [inpC_active]; decide) 6 1 (by decide)
 
 /-- the literal reading of the former statement (decoded walks *themselves* start at the synthetic source) is
 false: the decoded walk of the example starts at `s` -/
